@@ -462,6 +462,7 @@ structure Core (f : Rev → Rev) : Prop where
   controllerOf : ∀ r, (f r).controllerOf = r.controllerOf
   objects : ∀ r, (f r).objects = r.objects
   hashMatch : ∀ r, (f r).hashMatch = r.hashMatch
+  terminating : ∀ r, (f r).terminating = r.terminating
 
 theorem touch_core (b : Bool) : Core (touch b) := by
   constructor <;> intro r <;> unfold touch <;> (split; rfl; split; (split <;> rfl); rfl)
@@ -511,7 +512,7 @@ theorem gcClosed_map {f : Rev → Rev} (hf : Core f) {l : List Rev} {ds : List N
   intro p hp hpd q hq hlt
   have := h (f p) (List.mem_map.mpr ⟨p, hp, rfl⟩) (by rw [hf.id]; exact hpd)
     (f q) (List.mem_map.mpr ⟨q, hq, rfl⟩) (by rw [hf.rev, hf.rev]; exact hlt)
-  rw [hf.id] at this
+  rw [hf.id, hf.terminating] at this
   exact this
 
 theorem gcClosed_congr {a b : List Rev} (hab : ∀ x, x ∈ a ↔ x ∈ b) {ds : List Nat}
